@@ -375,7 +375,11 @@ class RefDevice:
 
     def wrap(self, conn, frame, key, magic=None):
         """frame -> V2 packet -> (V3 encrypted response if key)."""
-        pkt = codec.v2_encode(self.device_id, frame, magic=magic or self.resp_magic)
+        # units stamp their answers with their own id and clock (which may never have been set, or run in a format
+        # of their own): resp_device_id / resp_ts override the defaults (same id as configured, zero time)
+        rid = getattr(self, "resp_device_id", None)
+        pkt = codec.v2_encode(self.device_id if rid is None else rid, frame, magic=magic or self.resp_magic,
+                              ts=getattr(self, "resp_ts", None) or bytes(8))
         if key is not None:
             pkt = codec.v3_encode_encrypted(key, self._txc(conn), pkt, codec.T_ENCRYPTED_RESPONSE,
                                             padbytes=None)
